@@ -19,7 +19,10 @@ META = dict(
          "sign-padding byte, i.e. a different, negative value with the same magnitude bytes, checked under every "
          "object of the key). RSA moduli cover every bit length residue mod 8 in each run; genuine ECDSA signatures "
          "with a short r or s (leading zero byte, blob below the nominal length) are constructed by signing until one "
-         "appears, for every ECDSA key. The real verify_ssh_sig answer is "
+         "appears, for every ECDSA key. Every signing-capable object additionally gets its public counterpart "
+         "class(data=key.asbytes()); keys with short coordinates (ECDSA x and/or y with leading zero bytes on all three "
+         "curves, Ed25519 public keys starting 0x00, RSA exponents needing an mpint sign byte) are constructed from cached "
+         "scalars and go through the whole programme. The real verify_ssh_sig answer is "
          "compared with the independent verdict on the decoded content and every exception escaping it is a "
          "violation. Holds for the executions produced only.",
     note="Trusts cryptography's ECDSA/Ed25519 verification and Python's pow(). Mutations that decode to the "
@@ -492,11 +495,66 @@ def short_ecdsa_signatures(ctx, fam, want, max_tries):
                               dict(kind=fam.kind, family=fam.label, verifier_origin=v_origin, data=d2, signature=s2))
 
 
+# --------------------------------------------------------------------------
+# the public counterpart as a user obtains it: class(data=key.asbytes())
+# --------------------------------------------------------------------------
+def add_counterparts(ctx, fam):
+    """For every signing-capable object k of the family add cls(data=k.asbytes()) -- the 'public counterpart' of the
+    statement built from the key's OWN public encoding (the other public objects are built from the independent
+    encoder). A key whose asbytes() cannot be parsed back has no usable public counterpart: violation."""
+    cls = ko.key_class(fam.kind)
+    for origin, k in list(fam.signers()):
+        ctx.count("counterparts_from_asbytes_attempted")
+        try:
+            blob = k.asbytes()
+            pub = cls(data=blob)
+        except Exception as e:
+            ctx.violation("public counterpart cannot be built from asbytes() (%s): %s" % (family_tag(fam), ko.exc_sig(e)),
+                          "class(data=key.asbytes()) raised for a valid private key",
+                          dict(kind=fam.kind, family=fam.label, origin=origin, error=repr(e)[:200],
+                               want_blob=fam.blob))
+            continue
+        ctx.count("counterparts_from_asbytes_built")
+        fam.add("counterpart-of-" + origin, pub)
+
+
+def special_families(ctx):
+    """Keys with short coordinates / sign-byte encodings, constructed deterministically (vf/data/short_coordinate_keys.json):
+    ECDSA keys whose x and/or y has leading zero byte(s), Ed25519 public keys starting with 0x00, RSA keys whose
+    public exponent needs an mpint sign byte."""
+    specs = ctx.guard(ko.short_coordinate_keys) or []
+    specs = list(specs) + [("sign-byte:rsa:e=0x%x" % e, "rsa:e-needs-sign-byte", e) for e in (0x81, 0x8001, 0x800001)]
+    if ctx.quick:
+        # one key per category in each quick run (which one rotates with the seed), all of them in thorough
+        bycat = {}
+        for sp in specs:
+            bycat.setdefault(sp[1], []).append(sp)
+        specs = [v[ctx.seed % len(v)] for k, v in sorted(bycat.items())]
+    fams = []
+    for i, (label, cat, priv) in enumerate(specs):
+        if not ctx.mine(i + ctx.seed):
+            continue
+        if isinstance(priv, int):
+            priv = ctx.guard(ko.rsa_with_exponent, priv, 1024 + 8 * (i % 3))
+            if priv is None:
+                continue
+        fam = ctx.guard(ko.family_from_private, priv, label)
+        if fam is None:
+            continue
+        fam.special = cat
+        fams.append(fam)
+    return fams
+
+
 def run(ctx):
     if ctx.guard(ko.selfcheck) is None:
         return
     ko.install_inflate_guard()
     fams = build_families(ctx)
+    specials = special_families(ctx)
+    fams = fams + specials
+    for f in fams:
+        add_counterparts(ctx, f)
     ctx.all_families = fams
     ctx.note("families", [f.label + " (" + ",".join(o for o, _ in f.objs) + ")" for f in fams][:40])
     if len(fams) < 2:
@@ -516,8 +574,26 @@ def run(ctx):
         if time.time() > deadline:
             ctx.count("families_cut_by_time")
             continue
-        exercise(ctx, f, n_sigs, n_mut)
-        if f.kind.startswith("ecdsa") and f.signers():
+        cat = getattr(f, "special", None)
+        if cat is None:
+            exercise(ctx, f, n_sigs, n_mut)
+        else:
+            exercise(ctx, f, ctx.pick(4, 10), ctx.pick(12, 30))
+            ctx.count("special_keys_checked")
+            kind, what = cat.split(":")
+            if kind.startswith("ecdsa"):
+                bits = kind[5:]
+                if what in ("x", "x2", "both"):
+                    ctx.count("ecdsa_keys_with_short_x_checked_" + bits)
+                if what in ("y", "y2", "both"):
+                    ctx.count("ecdsa_keys_with_short_y_checked_" + bits)
+                if what == "both":
+                    ctx.count("ecdsa_keys_with_short_x_and_y_checked_" + bits)
+            elif kind == "ed25519":
+                ctx.count("ed25519_keys_starting_with_zero_byte_checked")
+            else:
+                ctx.count("rsa_keys_with_sign_byte_exponent_checked")
+        if cat is None and f.kind.startswith("ecdsa") and f.signers():
             short_ecdsa_signatures(ctx, f, want=ctx.pick(3, 8), max_tries=ctx.pick(4000, 12000))
     ctx.require("verify_calls", 3000)
     ctx.require("genuine_checks", 300)
@@ -525,8 +601,14 @@ def run(ctx):
     ctx.require("mutations_judged", 2000)
     ctx.require("oracle_evals", 2000)
     for bits in (256, 384, 521):
+        ctx.require("ecdsa_keys_with_short_x_checked_%d" % bits, 2)
+        ctx.require("ecdsa_keys_with_short_y_checked_%d" % bits, 2)
+        ctx.require("ecdsa_keys_with_short_x_and_y_checked_%d" % bits, 1)
         ctx.require("ecdsa_genuine_short_r_or_s_verified_%d" % bits, 40)
         ctx.require("ecdsa_genuine_blob_below_nominal_length_%d" % bits, 3)
+    ctx.require("ed25519_keys_starting_with_zero_byte_checked", 2)
+    ctx.require("rsa_keys_with_sign_byte_exponent_checked", 1)
+    ctx.require("counterparts_from_asbytes_built", 60)
     ctx.require("ecdsa_sign_pad_dropped_checks", 150)
     ctx.require("ecdsa_reencoded_value_changed_checks", 600)
     ctx.require("rsa_families_modulus_not_byte_aligned", 5)
